@@ -18,6 +18,7 @@ import (
 	"runtime/debug"
 	"sort"
 	"strconv"
+	"strings"
 	"sync"
 	"sync/atomic"
 	"testing"
@@ -487,7 +488,7 @@ func (r *R) Explore(cfg Config) {
 			return nil
 		})
 		if err != nil {
-			r.Violation(cfg.Name+":"+fmt.Sprint(d.Ops), err.Error(), map[string]any{"explore": cfg.Name, "ops": d.Ops})
+			r.Violation(cfg.Name+":"+strings.Join(d.Ops, ";"), err.Error(), map[string]any{"explore": cfg.Name, "ops": d.Ops})
 		}
 		return
 	}
